@@ -3,12 +3,13 @@
 # listed in its meta.json under quick_checks_that_catch_it (normally the check of its own
 # property; scratch worktree per change), prints one line per change.
 sd=${1:-5}
-cd /verif
+root=$(cd "$(dirname "$0")/.." && pwd)
+cd $root
 for d in seeded/${2:-*}/; do
   name=$(basename $d); prop=$(python3 -c "import json;print(json.load(open('$d/meta.json'))['quick_checks_that_catch_it'][0])")
   wt=$(mktemp -d /tmp/mxwt.XXXXXX); rmdir $wt
   git -C /repo worktree add -q --detach $wt HEAD || continue
-  if git -C $wt apply /verif/$d/patch.diff 2>/dev/null; then
+  if git -C $wt apply $root/$d/patch.diff 2>/dev/null; then
     out=$(VERIF_SEED=$sd ./bin/vcheck $prop --tier quick --repo $wt 2>&1); rc=$?
     echo "MATRIX seed=$sd $name check=$prop rc=$rc violations=$(echo "$out" | grep -c '^VIOLATION')"
     echo "$out" | grep '^VIOLATION' | sed 's/.*replay=//' | while read f; do case "$f" in */v-*.json) rm -f "$f";; esac; done
